@@ -705,6 +705,42 @@ func ruleHist(c *Ctx) []*Ob {
 			o.add(pn, "published footer links to its predecessor", c.instrPos(a.Instr), linked, why)
 		}
 	}
+	// (3b) buildNewFooter links whenever there is a predecessor: every path to a return passes the store, except through storeFooter == nil
+	bnf := c.Fn("(*Store).buildNewFooter")
+	if sf := paramNamed(bnf, "storeFooter"); sf != nil {
+		var st ssa.Instruction
+		for _, ps := range prevStores {
+			if ps.f == bnf {
+				st = ps.st
+			}
+		}
+		if st != nil {
+			noPred := func(from, to *ssa.BasicBlock, cond ssa.Value, onTrue bool) bool {
+				b, ok := cond.(*ssa.BinOp)
+				if !ok || (b.Op != token.EQL && b.Op != token.NEQ) {
+					return false
+				}
+				x, y := b.X, b.Y
+				if isNilConst(x) {
+					x, y = y, x
+				}
+				return isNilConst(y) && sameValue(x, sf) && (b.Op == token.EQL) == onTrue
+			}
+			bad := ""
+			eachInstr(bnf, func(i ssa.Instruction) {
+				if _, ok := i.(*ssa.Return); ok && bad == "" {
+					if !mustPrecede(bnf, i, func(j ssa.Instruction) bool { return j == st }, noPred) {
+						bad = c.instrPos(i)
+					}
+				}
+			})
+			why := "whenever there is a predecessor footer the link is written"
+			if bad != "" {
+				why = "buildNewFooter can return (" + bad + ") without having set PrevFooterOffset although storeFooter != nil: the link depends on something else (say, on the predecessor having top-level segments) - for a store whose data is all in child collections every footer links to 0 and the history cannot be walked"
+			}
+			o.add(c.fname(bnf), "link written on every path with a predecessor", c.instrPos(st), bad == "", why)
+		}
+	}
 	// (4) SnapshotPrevious follows the recorded link: the position handed to ScanFooter is the footer's PrevFooterOffset
 	sp := c.Fn("(*Store).snapshotPrevious")
 	scanFn := c.Fn("ScanFooter")
